@@ -6,6 +6,8 @@ import (
 
 	"verif/mc/enum"
 	"verif/mc/evid"
+	"verif/mc/ref"
+	"verif/mc/srvx"
 )
 
 // C07: one request, one reply; rejected requests get no handler and a closed connection.
@@ -22,7 +24,7 @@ func init() {
 				Rule: fmt.Sprintf("all histories of depth <= %d (depth %d over a reduced alphabet in the thorough tier) on one connection of the full reference server (real loader, Start handler, ASCII/PAP handlers, bcrypt, stringy, local accounter) over an alphabet of ~85 abstract packets: "+
 					"ASCII START (user empty/known/unknown), PAP START (good/bad/empty password), unrouted STARTs, CONTINUE (user, password, junk, empty, abort), command and session authorization (permitted/denied/other user), accounting (start/stop/watchdog/invalid flags), "+
 					"undecodable bodies per type, trailing garbage, each on session A or B; sequence choices {expected, same, lower, even, jump, 255} on three kinds; rejected forms (invalid version, type, sequence 0, length 65537, wrong key). "+
-					"Plus all histories of depth <= 3 over 12 packets mixing ordinary requests with user names, messages and arguments outside US-ASCII (well-formed UTF-8 and not) on every AAA path. Configurations: keychain-backed user with a working and with a failing keychain; and all histories of depth <= 2 over ~110 packets aimed at the odd user/authenticator/accounter/policy shapes of the C14 configurations under three keychain behaviours. Oracle per request, from the connection-loop model: accepted => exactly one handler invocation and exactly one packet "+
+					"Plus all histories of depth <= 3 over 12 packets mixing ordinary requests with user names, messages and arguments outside US-ASCII (well-formed UTF-8 and not) on every AAA path. Plus 5 accepted requests x 8 kinds of bytes behind them in the same segment (a valid request, four header forms that end the connection, a header whose body never comes, half a header, a wrong-key packet): the first packet written is the reply to the accepted request. Configurations: keychain-backed user with a working and with a failing keychain; and all histories of depth <= 2 over ~110 packets aimed at the odd user/authenticator/accounter/policy shapes of the C14 configurations under three keychain behaviours. Oracle per request, from the connection-loop model: accepted => exactly one handler invocation and exactly one packet "+
 					"(none iff numbered 255) before the next read, connection stays open; rejected => no handler invocation, at most one packet, connection closed. states = distinct loop-model states, transitions = packets delivered", d, d),
 				Assumptions: []string{"accept/reject is decided by mc/ref/connmodel.go; the only handler-dependent input of the model is whether the invoked handler registered a continuation (observed through a wrapping Response)",
 					"for bodies in the indeterminate key-mismatch class either complete behaviour is accepted (C19 owns that boundary)"}}
@@ -224,6 +226,23 @@ func c07Run(c *Ctx) {
 			{Kind: "author", User: "own", Args: []string{"service=shell", "cmd=sh\xc3\xb6w"}}}
 		rExplore(c, eOK, small, 3, false, "s1", step, nil)
 	}
+	// coalesced delivery: an accepted request with the client's next bytes behind it in one segment
+	{
+		rw, err := newRWorld(eOK.Cfg, eOK.KC, false)
+		if err != nil {
+			panic(err)
+		}
+		job := 0
+		for ai := range c07CoFirsts(eOK) {
+			for _, bh := range c07Behinds {
+				job++
+				if c.Mine(job) {
+					c07Coalesced(c, rw, eOK, c07Co{A: ai, Behind: bh})
+				}
+			}
+		}
+		rw.stop()
+	}
 	eErr := newREnv(defaultSecrets(), "err")
 	rExplore(c, eErr, c07Alphabet(eErr, true), depth, false, "s1", step, nil)
 	// every AAA path of the odd user/authenticator/accounter/policy shapes (the C14 configurations), depth 2
@@ -288,6 +307,90 @@ func rReplayEnv(c *Ctx, e *rEnv, cs rCase, keepLog bool, onStep func(hist []rPkt
 	}
 }
 
+// c07Co: request A and what the client has already sent behind it arrive in ONE segment.
+type c07Co struct {
+	A      int    `json:"coalesced_first"`
+	Behind string `json:"behind"`
+}
+
+func c07CoFirsts(e *rEnv) []rPkt {
+	return []rPkt{{Kind: "author", User: "own", Args: []string{"service=shell", "cmd=show"}}, {Kind: "pap", User: "own", Pw: e.Sec.Own}, {Kind: "acct", User: "own", Flags: 2},
+		{Kind: "ascii", User: ""}, {Kind: "author", User: "nobody", Args: []string{"service=shell", "cmd=show"}}}
+}
+
+var c07Behinds = []string{"valid", "bad-version", "even-seq", "seq-0", "oversize", "header-only", "partial-header", "wrong-key"}
+
+// c07Coalesced: an accepted request is answered with exactly one reply before the server turns to whatever follows it -
+// a valid request, one that ends the connection, or one that never completes.
+func c07Coalesced(c *Ctx, rw *rworld, e *rEnv, cs c07Co) {
+	c.R.Eval()
+	c.Cur(cs)
+	rc, err := rw.openR(e, "s1")
+	if err != nil {
+		c.Abort("hang", err.Error(), cs)
+	}
+	defer func() {
+		if !rc.C.Closed() {
+			rc.C.FeedEOF()
+		}
+	}()
+	a := c07CoFirsts(e)[cs.A]
+	typ, minor, body := a.body()
+	ha := ref.Header{Version: 0xc0 | minor, Type: typ, Seq: 1, Session: 0xc0a1e5ce}
+	wire := ref.Packet(ha, rc.Key, body)
+	nb := minimalRequest(2)
+	hb := ref.Header{Version: 0xc0, Type: 2, Seq: 1, Session: 0xc0a1e5cf}
+	key := rc.Key
+	switch cs.Behind {
+	case "bad-version":
+		hb.Version = 0x10
+	case "even-seq":
+		hb.Seq = 2
+	case "seq-0":
+		hb.Seq = 0
+	case "wrong-key":
+		key = []byte("some other key")
+		nb = []byte{0xff, 0xff, 0xff, 0xff, 0xff, 0xff, 0xff, 0xff, 0xff}
+	}
+	next := ref.Packet(hb, key, nb)
+	switch cs.Behind {
+	case "oversize":
+		next = next[:12]
+		next[8], next[9], next[10], next[11] = 0, 1, 0, 1
+	case "header-only":
+		next = next[:12]
+	case "partial-header":
+		next = next[:5]
+	}
+	if _, err := rw.W.Deliver(rc.C, append(append([]byte{}, wire...), next...)); err != nil {
+		c.Abort("hang", err.Error(), cs)
+	}
+	c.R.Trans(2)
+	pk, _ := srvx.ParseStream(rc.C.Take())
+	if len(pk) == 0 || pk[0].H.Session != ha.Session || pk[0].H.Seq != 2 || pk[0].H.Type != typ {
+		got := "nothing"
+		if len(pk) > 0 {
+			got = fmt.Sprintf("a packet of session %#x numbered %d", pk[0].H.Session, pk[0].H.Seq)
+		}
+		c.R.ViolateMin("coalesced/reply-to-accepted-request-missing", fmt.Sprintf("request %s was accepted (valid header, number 1, right key) with %q behind it in the same segment; by the time the server had dealt with what followed (or was waiting for more of it) the first packet written was %s, want its reply numbered 2",
+			a.String(), cs.Behind, got), cs, 1)
+		return
+	}
+	c.R.Distinct(evid.Hash("co", cs))
+	c.R.Trace()
+}
+
 func c07Replay(c *Ctx, raw json.RawMessage) {
+	var co c07Co
+	if json.Unmarshal(raw, &co) == nil && co.Behind != "" {
+		e := newREnv(defaultSecrets(), "ok")
+		rw, err := newRWorld(e.Cfg, e.KC, false)
+		if err != nil {
+			panic(err)
+		}
+		defer rw.stop()
+		c07Coalesced(c, rw, e, co)
+		return
+	}
 	rReplay(c, raw, false, func(hist []rPkt, s stepInfo) (string, string) { return c07Oracle(s) })
 }
